@@ -275,14 +275,7 @@ func modelCases2(c *ctx) {
 		}
 		// upload slot
 		{
-			urls := []string{"", "https://example.net/up/a%20b?x=1&y=2", "http://[::1]:8080/p"}
-			var s upload.Slot
-			if u := urls[g.intn(len(urls))]; u != "" {
-				s.PutURL, _ = url.Parse(u)
-			}
-			if u := urls[g.intn(len(urls))]; u != "" {
-				s.GetURL, _ = url.Parse(u)
-			}
+			s := upload.Slot{PutURL: g.url(), GetURL: g.url()}
 			names := []string{"Authorization", "Cookie", "Expires", "cookie", "X-Other"}
 			for m := g.count(3); m > 0; m-- {
 				if s.Header == nil {
